@@ -428,7 +428,8 @@ def flatChain (adj : Nat → List (Nat × Nat)) (srcs : List (Option Int)) (hops
 All edges carry the same stored type, so whether a hop matches is one boolean per hop:
 `firstOk` for the first hop, `laterOk` for the others.  Flat execution (`ExpandOperator`) and the
 first factorized hop (`FactorizedExpandOperator::get_neighbors`) compare with
-`eq_ignore_ascii_case`; `FactorizedExpandChain::expand_deepest_level` compares with `==`. -/
+`eq_ignore_ascii_case`; since 9e9ba35 `FactorizedExpandChain::expand_deepest_level` does too
+(`laterHopOk`); before, it compared with `==` (`Old.laterHopOk`). -/
 
 def hopPairs (edges : List (Nat × Nat)) (ok : Bool) (rows : List (Nat × Nat)) : List (Nat × Nat) :=
   rows.flatMap fun r => if ok then edges.filterMap (fun e => if e.1 == r.2 then some (r.1, e.2) else none) else []
@@ -439,6 +440,17 @@ def qcaseRows (n : Nat) (edges : List (Nat × Nat)) (firstOk laterOk : Bool) (ho
   | 0 => []
   | h + 1 => (List.range h).foldl (fun rows _ => hopPairs edges laterOk rows)
       (hopPairs edges firstOk ((List.range n).map fun i => (i, i)))
+
+/-- whether a hop after the first matches, given the two comparisons of the stored type with the
+type in the query (`ci` = ignoring ASCII case, `exact` = `==`): every hop ignores case -/
+def laterHopOk (_fact : Bool) (_hops : Nat) (ci _exact : Bool) : Bool := ci
+
+namespace Old
+/-- before 9e9ba35: with factorized execution on, a chain is planned for two or more hops and its
+later hops compared the edge type exactly -/
+def laterHopOk (fact : Bool) (hops : Nat) (ci exact : Bool) : Bool :=
+  if fact && decide (hops ≥ 2) then exact else ci
+end Old
 
 /-! ### well-formed chunks (what the constructors build) -/
 
